@@ -16,7 +16,7 @@ def record():
     code = r'''
 import json, random, sys
 sys.path.insert(0, %r)
-from harness.props import c01, c04, c03, c11, c20, c08, c06
+from harness.props import c01, c04, c03, c11, c20, c08, c06, c09, pdasrc
 from harness import universe as U
 out = []
 rng = random.Random(1)
@@ -27,6 +27,7 @@ out += list(c03.one({"kind": "exh_nfa", "k": 2, "S": "ab", "code": 4321, "eps": 
 out += list(c11.events({"kind": "tm_code", "nwork": 1, "gamma": "a_", "code": 77}, 1, rng))[:1]
 out += list(c20.one({"kind": "pairs", "k": 2, "S": "ab", "c1": 9, "c2": 9, "p2": "t"}))
 out += [e for e in c06.dfa_events({"kind": "exh_dfa", "k": 3, "S": "ab", "code": 2345, "pool": 0, "perm": 0}) if e["op"] == "rip_trace"]
+out += [e for e in c09.pc_events(pdasrc.build(pdasrc.SPECIAL[0]), pdasrc.SPECIAL[0], rng, 5)][:1]
 print(json.dumps(out))
 ''' % common.VERIF
     p = subprocess.run([common.PY, "-c", code], env=common.worker_env(0), stdout=subprocess.PIPE,
@@ -63,6 +64,10 @@ def corrupt(e):
         if len(c["seq"]) < 2:
             return None
         c["seq"][1][2] += 1                  # head position of the second configuration
+    elif op == "pc_trace":
+        if len(c["pops"]) < 2:
+            return None
+        del c["pops"][0]                     # one hook event removed
     elif op == "rip_trace":
         del c["rips"][0]                     # one hook event removed
     elif op == "iso":
